@@ -144,15 +144,15 @@ def trans(chk, P):
     fi = P.func("atsim.potentials._modifiers", "trans")
     t = I.run(fi, [ListV([first, second], "list"), PyObjV(_Builder())])
     r = Num(ep.sym("r"))
-    fpath = ("built", first.key())
-    arg = ep.sym("r") + ep.sym("X")
-    for attr, order in ((None, 0), ("deriv", 1), ("deriv2", 2)):
-        f = t if attr is None else I.getattr(t, attr)
-        v = I.num(I.call(f, [r], {}))
-        want = ep.app(fpath, [arg], dorder=order)
-        ok, why = ep.equal(v, want)
-        chk.ob("C07.O4", "trans(f, X)%s(r) = f%s(r + X)" % ("." + attr if attr else "", "'" * order), ok, site=fi.site(),
-               found=why or v, expect=want, key="C07.O4|trans|%s" % (attr or "value"))
+    v = I.num(I.call(t, [r], {}))
+    d1 = I.num(I.call(I.getattr(t, "deriv"), [r], {}))
+    d2 = I.num(I.call(I.getattr(t, "deriv2"), [r], {}))
+    # whichever potential the modifier builds, its derivatives must be those of the value it returns (same shifted argument)
+    dcheck(chk, "C07.O4", "trans(f, X).deriv(r) = d/dr trans(f, X)(r)", v, d1, fi.site(), "C07.O4|trans|deriv")
+    dcheck(chk, "C07.O4", "trans(f, X).deriv2(r) = d/dr trans(f, X).deriv(r)", d1, d2, fi.site(), "C07.O4|trans|deriv2")
+    shifted = [a for a in v.atoms() if isinstance(a, ep.AppA) and a.args and ep.equal(a.args[0], ep.sym("r") + ep.sym("X"))[0]]
+    chk.ob("C07.O4", "trans(f, X)(r) evaluates its potential at r + X", len(shifted) == 1 and ep.equal(v, ep.RF(ep.patom(shifted[0])))[0],
+           site=fi.site(), found=v, expect="g(r + X)", key="C07.O4|trans|value")
 
 
 def multirange(chk, P):
